@@ -651,7 +651,8 @@ def match_case_strategy(draw):
     for k in range(2):
         tpl = draw(templates(max_dirs=2, end_styles=("full",),
                              allow_wild=False, allow_ms=False,
-                             min_res="second", allow_user=False))
+                             min_res="second",
+                             allow_user=draw(st.booleans())))
         limit = dir_period(tpl)
         n = draw(st.integers(1, 12))
         files = []
@@ -666,7 +667,9 @@ def match_case_strategy(draw):
             e = s + dt.timedelta(seconds=dur)
             if not (year_ok(tpl, s.year) and year_ok(tpl, e.year)):
                 continue
-            files.append({"s": s, "e": e, "attrs": {}, "wild": ""})
+            files.append({"s": s, "e": e, "attrs": {
+                name: draw(st.sampled_from(spec["values"]))
+                for name, spec in sorted(tpl["user"].items())}, "wild": ""})
             t = e
         if k == 1 and draw(st.integers(0, 3)) == 0 and sets and limit is None:
             # one file covering the other set's whole span
@@ -674,13 +677,17 @@ def match_case_strategy(draw):
             hi = max(f["e"] for f in sets[0]["files"])
             files.append({"s": lo - dt.timedelta(seconds=5),
                           "e": hi + dt.timedelta(seconds=5),
-                          "attrs": {}, "wild": ""})
+                          "attrs": {name: spec["values"][0] for name, spec
+                                    in sorted(tpl["user"].items())},
+                          "wild": ""})
         files = [f for f in files if year_ok(tpl, f["s"].year)
                  and year_ok(tpl, f["e"].year)]
         if not files:
             safe = dt.datetime(2018, 6, 15, 12)
             files.append({"s": safe, "e": safe + dt.timedelta(seconds=60),
-                          "attrs": {}, "wild": ""})
+                          "attrs": {name: spec["values"][0] for name, spec
+                                    in sorted(tpl["user"].items())},
+                          "wild": ""})
         sets.append({"template": tpl, "files": files})
     every = [f for s_ in sets for f in s_["files"]]
     lo = min(f["s"] for f in every)
